@@ -923,6 +923,17 @@ fn gen_peer(thorough: bool, rng: &mut Rng, out: &mut Vec<String>) {
             }
         }
     }
+    for (m, d) in [(&b"%FF"[..], &b""[..]), (b"ok%20text", b"!!!"), (b"%C3", b"A")] {
+        let mut t = vec![(b"grpc-status".to_vec(), b"7".to_vec()), (b"x-t".to_vec(), b"v".to_vec()), (b"grpc-message".to_vec(), m.to_vec()), (b"t-bin".to_vec(), b"BA==".to_vec())];
+        if !d.is_empty() {
+            t.push((b"grpc-status-details-bin".to_vec(), d.to_vec()));
+        }
+        for shape in ["u", "s"] {
+            for nmsg in 0..2 {
+                out.push(format!("peer cli {} {} {} 1 {}", shape, entries_tok(&h), nmsg, entries_tok(&t)));
+            }
+        }
+    }
     let hq = vec![(b"te".to_vec(), b"trailers".to_vec()), ct.clone(), (b"user-agent".to_vec(), b"grpc-go/1.60".to_vec()), (b"x-a".to_vec(), b"1".to_vec()), (b"k-bin".to_vec(), b"AAEC/w==".to_vec()), (b"x-a".to_vec(), b"2".to_vec())];
     for shape in ["u", "s"] {
         out.push(format!("peer srv {} {} 0", shape, entries_tok(&hq)));
@@ -944,6 +955,17 @@ fn gen_peer(thorough: bool, rng: &mut Rng, out: &mut Vec<String>) {
             // trailer names: mostly their own, sometimes shared with the headers
             let prefix = if rng.chance(1, 4) { "" } else { "t-" };
             t.extend(peer_entries(rng, prefix, 3));
+            // what other implementations and proxies put next to an error status: a message and details - well formed,
+            // or NOT decodable (the status then degrades to UNKNOWN, but the custom entries travelling with it are still
+            // the peer's metadata and must reach the caller - seed C08i)
+            if code != 0 && rng.chance(1, 2) {
+                let m: &[u8] = *rng.pick(&[&b"a%20b"[..], b"plain", b"%FF", b"%C3", b"bad%C3%28", b"%E4%B8%AD", b""]);
+                t.push((b"grpc-message".to_vec(), m.to_vec()));
+            }
+            if code != 0 && rng.chance(1, 3) {
+                let d: &[u8] = *rng.pick(&[&b"CgVoZWxsbw"[..], b"AAEC", b"!!!", b"A", b"QQ=="]);
+                t.push((b"grpc-status-details-bin".to_vec(), d.to_vec()));
+            }
             if rng.chance(1, 2) {
                 let n = t.len();
                 t.swap(0, n - 1);
